@@ -72,7 +72,7 @@ class _FuseMinMaxBase(RewriteRuleClassBase, abc.ABC):
     def _is_scalar(self, v: np.ndarray) -> bool:
         return np.isscalar(v) or np.size(v) == 1
 
-    def check(self, context, out1, out2, **_):
+    def check(self, context, x, out1, out2, **_):
         """Condition to check if we need to replace the pattern.
 
         Conditions:
@@ -104,6 +104,13 @@ class _FuseMinMaxBase(RewriteRuleClassBase, abc.ABC):
             # If scalars are required (Clip fusion), enforce scalar-ness
             if self.need_scalars and not self._is_scalar(input_.const_value.numpy()):
                 return check_result.fail(f"{input_.name} is not a scalar.")
+            # A one-element constant of higher rank than X raises the rank of Min/Max(X, c)
+            # by broadcasting; the scalar bounds of Clip would not.
+            if self.need_scalars and input_.const_value.numpy().ndim > 0:
+                if x.shape is None or input_.const_value.numpy().ndim > x.shape.rank():
+                    return check_result.fail(
+                        f"{input_.name} may have a higher rank than {x.name}."
+                    )
 
         if self.need_scalars and self.check_bounds:
             # For Clip fusion in the case of Max(Min(X, upper_bound), lower_bound): check that lower_bound <= upper_bound
